@@ -297,8 +297,8 @@ Record dstate := mkd { d_px : parray; d_n : N; d_cache : parray; d_dist : N; d_c
 Definition emit (cache_bits : N) (st : dstate) (p : N) (dist copy : N) : dstate :=
   mkd (pset (d_px st) (d_n st) p) (d_n st + 1) (cache_insert cache_bits (d_cache st) p) dist copy.
 
-(* DecodeImageData, one pixel per step: [todo] pixels are still to be produced *)
-Fixpoint decode_pixels (todo : nat) (pu : purpose) (cs : codes) (cache_bits xsize : N) (st : dstate) : SM (list N) :=
+(* DecodeImageData, one pixel per step: [todo] pixels are still to be produced, [total] = xsize * ysize *)
+Fixpoint decode_pixels (todo : nat) (pu : purpose) (cs : codes) (cache_bits xsize total : N) (st : dstate) : SM (list N) :=
   match todo with
   | O => sret (plist (d_px st) (d_n st))
   | S todo' =>
@@ -306,7 +306,7 @@ Fixpoint decode_pixels (todo : nat) (pu : purpose) (cs : codes) (cache_bits xsiz
       (* inside a back reference: copy the pixel [d_dist] positions back *)
       let p := pget (d_px st) (d_n st - d_dist st) in
       _ <- require (pixel_ok pu p) RStrictPredictor ;;
-      decode_pixels todo' pu cs cache_bits xsize (emit cache_bits st p (d_dist st) (d_copy st - 1))
+      decode_pixels todo' pu cs cache_bits xsize total (emit cache_bits st p (d_dist st) (d_copy st - 1))
     else
       g <- read_symbol (c_green cs) ;;
       if g <? 256 then
@@ -315,28 +315,28 @@ Fixpoint decode_pixels (todo : nat) (pu : purpose) (cs : codes) (cache_bits xsiz
         a <- read_symbol (c_alpha cs) ;;
         let p := argb a r g b in
         _ <- require (pixel_ok pu p) RStrictPredictor ;;
-        decode_pixels todo' pu cs cache_bits xsize (emit cache_bits st p 0 0)
+        decode_pixels todo' pu cs cache_bits xsize total (emit cache_bits st p 0 0)
       else if g <? 256 + 24 then
         len <- read_lz77 (g - 256) ;;
         dsym <- read_symbol (c_dist cs) ;;
         dcode <- read_lz77 dsym ;;
         let dist := plane_code_to_distance xsize dcode in
         _ <- require (rule_backref_start dist (d_n st)) RBackrefBeforeStart ;;
-        _ <- require (rule_backref_end len (N.of_nat todo)) RBackrefPastEnd ;;
+        _ <- require (rule_backref_end len (total - d_n st)) RBackrefPastEnd ;;
         let p := pget (d_px st) (d_n st - dist) in
         _ <- require (pixel_ok pu p) RStrictPredictor ;;
-        decode_pixels todo' pu cs cache_bits xsize (emit cache_bits st p dist (len - 1))
+        decode_pixels todo' pu cs cache_bits xsize total (emit cache_bits st p dist (len - 1))
       else
         let p := pget (d_cache st) (g - (256 + 24)) in
         _ <- require (pixel_ok pu p) RStrictPredictor ;;
-        decode_pixels todo' pu cs cache_bits xsize (emit cache_bits st p 0 0)
+        decode_pixels todo' pu cs cache_bits xsize total (emit cache_bits st p 0 0)
   end.
 
 (* DecodeImageStream(xsize, ysize, is_level0 = 0): a sub-image, materialised *)
 Definition decode_subimage (pu : purpose) (xsize ysize : N) : SM (list N) :=
   cache_bits <- read_cache_bits ;;
   cs <- read_codes (cache_size cache_bits) ;;
-  decode_pixels (N.to_nat (xsize * ysize)) pu cs cache_bits xsize (mkd pempty 0 pempty 0 0).
+  decode_pixels (N.to_nat (xsize * ysize)) pu cs cache_bits xsize (xsize * ysize) (mkd pempty 0 pempty 0 0).
 
 (* VP8LSubSampleSize *)
 Definition subsample (size bits : N) : N := (size + 2 ^ bits - 1) / 2 ^ bits.
